@@ -87,11 +87,34 @@ class Verdict:
         self.status, self.model, self.seconds, self.note = status, model, seconds, note
     def __repr__(self): return f'<{self.status} {self.seconds:.2f}s {self.note}>'
 
+CROSS = {'rate': 0.0, 'rng': None, 'checked': 0, 'agree': 0, 'skipped': 0, 'disagree': []}
+
+def cross_check(s, verdict):
+    """re-decide the query with cvc5 and the system z3 4.8.12 on the exported SMT-LIB2 text (DESIGN.md 3.8)"""
+    import subprocess, tempfile, os
+    txt = s.to_smt2()
+    if 'set-logic' not in txt: txt = '(set-logic ALL)\n' + txt
+    fd, path = tempfile.mkstemp(suffix='.smt2', dir=front.scratch()); os.write(fd, txt.encode()); os.close(fd)
+    out = {}
+    for name, cmd in (('z3-4.8.12', ['/usr/bin/z3', '-T:60', path]), ('cvc5', ['cvc5', '--lang', 'smt2', '--tlimit=60000', path])):
+        try:
+            p = subprocess.run(cmd, stdout=subprocess.PIPE, stderr=subprocess.PIPE, text=True, timeout=90)
+            lines = [l.strip() for l in p.stdout.split('\n') if l.strip()]
+            out[name] = 'error' if any(l.startswith('(error') for l in lines) else (lines[0] if lines else 'none')
+        except Exception as e: out[name] = 'timeout'
+    os.unlink(path)
+    CROSS['checked'] += 1
+    answers = [v for v in out.values() if v in ('sat', 'unsat')]
+    if not answers: CROSS['skipped'] += 1
+    elif all(v == verdict for v in answers): CROSS['agree'] += 1
+    else: CROSS['disagree'].append((verdict, out))
+
 def decide(assertions, timeout_ms=120000):
     """sat / unsat / unknown for a conjunction of z3 assertions (fresh solver; statistics returned)"""
     s = z3.Solver(); s.set('timeout', timeout_ms)
     for a in assertions: s.add(a)
     t = time.time(); r = s.check(); dt = time.time() - t
+    if CROSS['rate'] and r != z3.unknown and CROSS['rng'].random() < CROSS['rate']: cross_check(s, str(r))
     if r == z3.sat: return Verdict('sat', s.model(), dt)
     if r == z3.unsat: return Verdict('unsat', None, dt)
     return Verdict('unknown', None, dt, s.reason_unknown())
